@@ -449,7 +449,7 @@ def semantic(spec, out):
 
         d = scratch_dir()
         try:
-            child = dict(VHDX_SPEC, has_parent=True, blocks=[], meta_order=[0, 1, 2, 3, 4, 5], locator=[["relative_path", ".\\parent.vhdx"]])
+            child = dict(VHDX_SPEC, has_parent=True, blocks=[], meta_order=[0, 1, 2, 3, 4, 5], locator=[["parent_linkage", "{83ed0ebf-a0e3-4bd2-a04a-46a2ba6e91be}"], ["relative_path", ".\\parent.vhdx"]])
             pfh, _l, _m = bvhdx.build(VHDX_SPEC)
             pfh.write_to(os.path.join(d, "parent.vhdx"))
             good, _l, _m = bvhdx.build(dict(child, name=os.path.join(d, "child.vhdx")))
